@@ -4,7 +4,7 @@
     Only statements; proofs are in coq/proofs/. *)
 From Coq Require Import List NArith Bool.
 From TG.Model Require Import CoreAst Scope BangOps Indexer ScopeSpec.
-From TG.Proofs Require Import ScopeSimWs ScopeBalance ScopeFrame ScopeSim ScopeSimStmt ScopeSimRec PosLog.
+From TG.Proofs Require Import ScopeSimWs FieldLookupVisited ScopeBalance ScopeFrame ScopeSim ScopeSimStmt ScopeSimRec PosLog.
 Import ListNotations.
 Open Scope N_scope.
 
@@ -299,4 +299,29 @@ Example C05_resolution_workspace_nonvacuous :
   spec_uses ex_ws = [(mkR 2 23 24, Some (mkR 1 6 7)); (mkR 0 53 54, Some (mkR 1 6 7));
                      (mkR 0 65 66, Some (mkR 1 14 15)); (mkR 0 79 80, Some (mkR 2 19 20))] /\
   rev (s_uses (index_ws ex_ws)) = spec_uses ex_ws.
+Proof. vm_compute. repeat split; reflexivity. Qed.
+
+(** The model's `find_field` / `is_subclass_of` are the plain depth-first searches; the code (since 1b571ae) shares
+    one set of visited ancestors over the whole search, so that an ancestor reached along several inheritance
+    paths is searched once.  [find_field_in] / [is_subclass_of_in] (FieldLookupVisited.v) are transcriptions of
+    that code; whenever parents are older records ([REC]: what ParentClassList::index maintains, part of the
+    invariant of C05_resolution) and the fuel exceeds the record number, both versions return the same answer. *)
+Theorem C05_field_lookup_visited_set : forall recs nm, REC recs -> forall fuel id,
+    (N.to_nat id < fuel)%nat -> find_field_visited fuel recs id nm = find_field fuel recs id nm.
+Proof. exact find_field_visited_eq. Qed.
+Check C05_field_lookup_visited_set : forall recs nm, REC recs -> forall fuel id,
+    (N.to_nat id < fuel)%nat -> find_field_visited fuel recs id nm = find_field fuel recs id nm.
+Print Assumptions C05_field_lookup_visited_set.
+Theorem C05_subclass_visited_set : forall recs other, REC recs -> forall fuel id,
+    (N.to_nat id < fuel)%nat -> is_subclass_of_visited fuel recs id other = is_subclass_of fuel recs id other.
+Proof. exact is_subclass_of_visited_eq. Qed.
+Check C05_subclass_visited_set : forall recs other, REC recs -> forall fuel id,
+    (N.to_nat id < fuel)%nat -> is_subclass_of_visited fuel recs id other = is_subclass_of fuel recs id other.
+Print Assumptions C05_subclass_visited_set.
+(** non-vacuity: a diamond  0 <- 1, 0 <- 2, {1, 2} <- 3  whose top has the field *)
+Example C05_visited_set_nonvacuous :
+  let recs := [mkRec [65] true [] [([102], 7)] [] (mkR 0 0 1); mkRec [66] true [] [] [0] (mkR 0 2 3);
+               mkRec [67] true [] [] [0] (mkR 0 4 5); mkRec [68] true [] [] [1; 2] (mkR 0 6 7)] in
+  find_field_in 5 recs 3 [103] [] = (None, [2; 0; 1]) /\ find_field_visited 5 recs 3 [102] = Some 7 /\
+  find_field 5 recs 3 [102] = Some 7.
 Proof. vm_compute. repeat split; reflexivity. Qed.
